@@ -346,7 +346,8 @@ func cmdCheck(args []string) int {
 	sort.Strings(notes)
 	ev := evidence{PropertyID: id, Tier: *tier, Seed: seed, Level: "proof", WallS: round3(time.Since(t0).Seconds()), Violations: len(violations)}
 	ev.Coverage = map[string]interface{}{
-		"obligations":           total,
+		"obligations":           total - len(known),
+		"known_finding_obligations": len(known),
 		"discharged":            discharged,
 		"checker_cmd":           fmt.Sprintf("/verif/bin/vfy check %s --tier %s", id, *tier),
 		"trusted_base":          tb,
